@@ -506,10 +506,10 @@ func (wg *WeightedAuthorizationModelGraph) calculateNodeWeightWithEnforceTypeStr
 		return fmt.Errorf("%w: %s node does not have any terminal type to reach to", ErrInvalidModel, node.uniqueLabel)
 	}
 
-	for _, edge := range edges {
+	for idx, edge := range edges {
 		// for but not ensure that the first edge is the left edge
 		// the first time, take the weights of the edge
-		if len(weights) == 0 {
+		if idx == 0 {
 			for key, value := range edge.weights {
 				weights[key] = value
 			}
